@@ -13,11 +13,7 @@ open Kingdon
 
 /-! ### facts of `admissible` not in `Adm` -/
 
-theorem vecs16_of_admissible (c : Cfg) (h : c.admissible = true) : ∀ v ∈ c.vecs, v < 16 := by
-  unfold Cfg.admissible at h
-  simp only [Bool.and_eq_true, List.all_eq_true, decide_eq_true_eq] at h
-  intro v hv
-  exact (h.1.1.1.1.1.2 v hv).2
+-- (`vecs16_of_admissible` lives in SourceBlades.lean)
 
 theorem sorted_of_admissible (c : Cfg) (h : c.admissible = true) : (c.basis.map (·.length)).Pairwise (· ≤ ·) := by
   unfold Cfg.admissible at h
